@@ -155,7 +155,7 @@ def check_c01(case, stats):
 
 
 CHECKS = {'check_c01': check_c01}
-_B = {'quick': (40, 20), 'thorough': (200, 75)}
+_B = {'quick': (40, 20), 'thorough': (300, 75)}
 
 
 def shards(tier):
